@@ -121,3 +121,126 @@ Section Walk.
       rewrite S. apply IH; [exact H1|]. intros ix' Hin. apply Hm. right; exact Hin.
   Qed.
 End Walk.
+
+Local Open Scope N_scope.
+(* ---------- one statement: on well-formed operand shapes the walker computes LLVM's result type ---------- *)
+Section ResultTypeLlvm.
+  Variable bodies : env.
+  Variable n : N.                       (* the common length of all vector operands *)
+  Hypothesis n_pos : 0 < n.
+
+  Definition uniform (s : ishape) : Prop := s = Scalar \/ s = Vector false n.
+  Definition len_ok (ix : index) : Prop := vector_len ix = 0 \/ vector_len ix = n.
+  Definition any_vec (idxs : list index) : bool := existsb (fun ix => negb (vector_len ix =? 0)) idxs.
+
+  Lemma n_neq0 : (n =? 0) = false. Proof. apply N.eqb_neq. lia. Qed.
+
+  Lemma merge_len_uniform rvl ix : (rvl = 0 \/ rvl = n) -> len_ok ix ->
+    merge_len rvl ix = Ok (if (rvl =? 0) && negb (vector_len ix =? 0) then n else rvl).
+  Proof.
+    intros Hr Hl. unfold merge_len. destruct Hr as [->| ->], Hl as [E|E]; rewrite E;
+      rewrite ?N.eqb_refl, ?n_neq0; cbn [negb andb]; rewrite ?N.eqb_refl, ?n_neq0; reflexivity.
+  Qed.
+
+  Lemma walk_uniform : forall (idxs : list index) (first : bool) e rvl e', (rvl = 0 \/ rvl = n) -> Forall len_ok idxs ->
+    llvm_elem bodies e (map (step_of) (if first then tl idxs else idxs)) = Some e' ->
+    walk bodies first e idxs rvl = Ok (e', if (rvl =? 0) then (if any_vec idxs then n else 0) else rvl).
+  Proof.
+    induction idxs as [|ix r IH]; intros first e rvl e' Hr Hl H; cbn [walk].
+    - assert (e' = e) as -> by (destruct first; cbn in H; congruence). cbn [any_vec existsb]. destruct (rvl =? 0) eqn:E; [apply N.eqb_eq in E; subst|]; reflexivity.
+    - inversion Hl as [|? ? Hix Hrest]; subst.
+      rewrite (merge_len_uniform rvl ix Hr Hix).
+      set (rvl' := if (rvl =? 0) && negb (vector_len ix =? 0) then n else rvl).
+      assert (rvl' = 0 \/ rvl' = n) as Hr'.
+      { unfold rvl'. destruct ((rvl =? 0) && negb (vector_len ix =? 0)); [right; reflexivity|exact Hr]. }
+      assert ((if rvl' =? 0 then if any_vec r then n else 0 else rvl') =
+              (if rvl =? 0 then if any_vec (ix :: r) then n else 0 else rvl)) as Efin.
+      { unfold rvl'. cbn [any_vec existsb]. fold (any_vec r).
+        destruct (rvl =? 0) eqn:E0; cbn [andb].
+        - destruct (vector_len ix =? 0); cbn [negb orb]; [rewrite E0; reflexivity|rewrite n_neq0; reflexivity].
+        - rewrite E0. reflexivity. }
+      destruct first; cbn [tl] in H.
+      + rewrite (IH false e rvl' e' Hr' Hrest H). f_equal. f_equal. exact Efin.
+      + cbn [map llvm_elem] in H.
+        assert (exists e1, step_type bodies e ix = Ok e1 /\ llvm_elem bodies e1 (map step_of r) = Some e') as (e1 & S & H1).
+        { unfold step_type, struct_field, step_of in *. destruct e; try discriminate.
+          - eexists; split; [reflexivity|exact H].
+          - eexists; split; [reflexivity|exact H].
+          - destruct (has_val ix); [|discriminate]. cbn [negb]. destruct (val ix <? 0)%Z; [discriminate|].
+            destruct (nth_error fields (Z.to_nat (val ix))) as [f|]; [|discriminate]. eexists; split; [reflexivity|exact H].
+          - destruct (bodies name) as [fs|]; [|discriminate].
+            destruct (has_val ix); [|discriminate]. cbn [negb]. destruct (val ix <? 0)%Z; [discriminate|].
+            destruct (nth_error fs (Z.to_nat (val ix))) as [f|]; [|discriminate]. eexists; split; [reflexivity|exact H]. }
+        rewrite S. rewrite (IH false e1 rvl' e' Hr' Hrest H1). f_equal. f_equal. exact Efin.
+  Qed.
+
+  (* the base operand: a pointer, or a fixed-length vector of pointers of the common length *)
+  Inductive base_ok : ty -> N -> ishape -> Prop :=
+  | base_scalar e a : base_ok (TPtr e a) a Scalar
+  | base_vector e a : base_ok (TVec false n (TPtr e a)) a (Vector false n).
+
+  Definition shape_of_len (ix : index) (s : ishape) : Prop := uniform s /\ vector_len ix = shape_len s.
+
+  Lemma any_vec_first idxs shapes : Forall2 shape_of_len idxs shapes ->
+    first_vector shapes = if any_vec idxs then Vector false n else Scalar.
+  Proof.
+    induction 1 as [|ix s idxs shapes [Hu Hl] _ IH]; [reflexivity|].
+    unfold first_vector in *. cbn [filter any_vec existsb]. fold (any_vec idxs).
+    destruct Hu as [-> | ->]; cbn [shape_len] in Hl; rewrite Hl.
+    - cbn. exact IH.
+    - rewrite n_neq0. reflexivity.
+  Qed.
+
+  Theorem result_type_llvm : forall elem src a bshape idxs shapes t,
+    base_ok src a bshape -> Forall2 shape_of_len idxs shapes ->
+    llvm_gep bodies elem a bshape shapes (map step_of (tl idxs)) = Some t ->
+    result_type bodies elem src idxs = Ok t.
+  Proof.
+    intros elem src a bshape idxs shapes t Hb Hs H. unfold llvm_gep in H.
+    destruct (llvm_elem bodies elem (map step_of (tl idxs))) as [e'|] eqn:E; [|discriminate]. injection H as <-.
+    assert (Forall len_ok idxs) as Hl.
+    { clear - Hs. induction Hs as [|ix s ? ? [Hu Hl] _ IH]; constructor; [|exact IH].
+      unfold len_ok. rewrite Hl. destruct Hu as [-> | ->]; [left|right]; reflexivity. }
+    pose proof (any_vec_first idxs shapes Hs) as Fv.
+    unfold result_type. destruct Hb as [e0 a|e0 a].
+    - rewrite (walk_uniform idxs true elem 0 e' (or_introl eq_refl) Hl E). cbn [N.eqb].
+      unfold first_vector in *. cbn [filter]. rewrite Fv.
+      destruct (any_vec idxs); [rewrite n_neq0; reflexivity|reflexivity].
+    - rewrite (walk_uniform idxs true elem n e' (or_intror eq_refl) Hl E).
+      rewrite n_neq0. cbv beta iota. rewrite n_neq0. unfold first_vector. cbn [filter]. reflexivity.
+  Qed.
+
+  (* and nothing else: whatever the walker returns on such operands is LLVM's type *)
+  Theorem result_type_llvm_iff : forall elem src a bshape idxs shapes t,
+    base_ok src a bshape -> Forall2 shape_of_len idxs shapes ->
+    (result_type bodies elem src idxs = Ok t <-> llvm_gep bodies elem a bshape shapes (map step_of (tl idxs)) = Some t).
+  Proof.
+    intros elem src a bshape idxs shapes t Hb Hs. split; [|apply result_type_llvm; assumption].
+    intros H.
+    assert (exists e' rvl0 rvl', walk bodies true elem idxs rvl0 = Ok (e', rvl')) as (e' & rvl0 & rvl' & W).
+    { unfold result_type in H. destruct Hb.
+      - destruct (walk bodies true elem idxs 0) as [[e' r']|] eqn:W; [|discriminate]. eauto.
+      - destruct (walk bodies true elem idxs n) as [[e' r']|] eqn:W; [|discriminate]. eauto. }
+    pose proof (walk_sound bodies idxs true elem rvl0 e' rvl' W) as S. cbn [tl] in S.
+    assert (exists t', llvm_gep bodies elem a bshape shapes (map step_of (tl idxs)) = Some t') as [t' L].
+    { unfold llvm_gep. rewrite S. eauto. }
+    pose proof (result_type_llvm elem src a bshape idxs shapes t' Hb Hs L) as R. rewrite H in R. injection R as ->. exact L.
+  Qed.
+End ResultTypeLlvm.
+Print Assumptions result_type_llvm_iff.
+
+(* non-vacuity: getelementptr {i32, [4 x i8]}, {i32, [4 x i8]}* %p, <2 x i64> %v, i32 1, i64 3  ->  <2 x i8*> *)
+Example result_type_llvm_example :
+  let st := TStruct false [TInt 32; TArr 4 (TInt 8)] in
+  let idxs := [no_val 2; new_index 1; new_index 3] in
+  let shapes := [Vector false 2; Scalar; Scalar] in
+  base_ok 2 (TPtr st 0) 0 Scalar /\ Forall2 (shape_of_len 2) idxs shapes /\
+  llvm_gep (fun _ => None) st 0 Scalar shapes (map step_of (tl idxs)) = Some (TVec false 2 (TPtr (TInt 8) 0)) /\
+  result_type (fun _ => None) st (TPtr st 0) idxs = Ok (TVec false 2 (TPtr (TInt 8) 0)).
+Proof.
+  cbv zeta. split; [constructor|]. split.
+  - constructor; [split; [right; reflexivity|reflexivity]|].
+    constructor; [split; [left; reflexivity|reflexivity]|].
+    constructor; [split; [left; reflexivity|reflexivity]|constructor].
+  - split; reflexivity.
+Qed.
